@@ -118,6 +118,24 @@ fn run_set<S: PS>(ctx: &Ctx) -> Acc {
             }
         }
     }
+    // public keys in which one t1 polynomial (or all of them) vanishes at an NTT point / on an aligned group
+    // of 16 NTT coefficients: constructed in range, dense in the coefficient domain
+    {
+        let mut g = Prng::derive(ctx.seed, &format!("c09-nttsparse-{}", p.name), 0);
+        for k in 0..p.k {
+            for slot in [0usize, 1, 128, 255, g.below(256) as usize] {
+                let mut t1: Vec<Poly> = (0..p.k).map(|_| core::array::from_fn(|_| g.range(0, 1023))).collect();
+                t1[k] = gen::poly_zero_ntt_slot(&mut g, 0, 1023, slot);
+                pk_roundtrip::<S>(&mut acc, "t1-polynomial-zero-at-an-ntt-point", &r::pk_encode(&g.bytes(32), &t1));
+            }
+            let grp = g.below(16) as usize;
+            let mut t1: Vec<Poly> = (0..p.k).map(|_| core::array::from_fn(|_| g.range(0, 1023))).collect();
+            t1[k] = gen::poly_zero_ntt_group(&mut g, 0, 1023, grp, 16);
+            pk_roundtrip::<S>(&mut acc, "t1-polynomial-zero-on-an-ntt-group", &r::pk_encode(&g.bytes(32), &t1));
+        }
+        let t1: Vec<Poly> = (0..p.k).map(|_| gen::ntt_sparse_poly(&mut g, 0, 1023)).collect();
+        pk_roundtrip::<S>(&mut acc, "every-t1-polynomial-ntt-sparse", &r::pk_encode(&g.bytes(32), &t1));
+    }
     // single-coefficient extremes
     let slot_jobs = 256usize;
     let accs = par_map(slot_jobs, |c| {
@@ -145,10 +163,10 @@ fn run_set<S: PS>(ctx: &Ctx) -> Acc {
             pk_roundtrip::<S>(&mut a, "random-bytes", &g.bytes(p.pk_len));
         }
         // hostile accepted private keys
-        let spats = [SPat::AllMinus, SPat::AllPlus, SPat::Alternating, SPat::Zero, SPat::Random];
-        let tpats = [T0Pat::AllTop, T0Pat::AllBottom, T0Pat::RandomExtremes, T0Pat::Random, T0Pat::Zero];
-        let sp = spats[ji % 5];
-        let tp = tpats[(ji / 5) % 5];
+        let spats = [SPat::AllMinus, SPat::AllPlus, SPat::Alternating, SPat::Zero, SPat::Random, SPat::NttSparse];
+        let tpats = [T0Pat::AllTop, T0Pat::AllBottom, T0Pat::RandomExtremes, T0Pat::Random, T0Pat::Zero, T0Pat::NttSparse];
+        let sp = spats[ji % 6];
+        let tp = tpats[(ji / 6) % 6];
         let sk = gen::hostile_sk(&mut g, p, sp, tp);
         let _ = sk_roundtrip::<S>(&mut a, &format!("hostile-{sp:?}-{tp:?}"), &sk);
         // each single field at each in-range value on a random background
